@@ -39,6 +39,25 @@ def gen_histories(rng, d, n, prefix, with_foreign=True):
             bo = hist.boundary_ops(rng, g)
             if bo:
                 ops = bo
+        if images is None and rng.random() < 0.3:
+            # ordering scenarios around discard: (a) a synced cluster is discarded and its host cluster reused by a
+            # write to another guest cluster; (b) a discard in a slice that also holds a not yet flushed new mapping
+            cbx = rng.choice([9, 10, 12])
+            g = hist.Geom(cbx, rng.choice([2, 4, 6]), 40 << cbx, 9, (9, rng.choice([2, 8]) << 9), (9, rng.choice([2, 8]) << 9), punch=rng.choice([1, 0]))
+            flat = hist.Flat(g.size)
+            cs = g.cs
+            a, b2, c3 = rng.sample(range(0, 30), 3)
+            ops = []
+            if rng.random() < 0.5:
+                ops += [('W', a * cs, cs, 1), ('F',), ('S',), ('D', a * cs, cs), ('W', b2 * cs + rng.choice([0, 512]), 512, 2)]
+                if rng.random() < 0.5:
+                    ops.append(('W', c3 * cs, cs, 3))
+            else:
+                ops += [('W', b2 * cs, cs, 1), ('F',), ('S',), ('W', a * cs, rng.choice([512, cs]), 2), ('D', b2 * cs, cs)]
+                if rng.random() < 0.5:
+                    ops.append(('W', c3 * cs, 512, 3))
+            if rng.random() < 0.3:
+                ops.append(('F',))
         # make some sync points: F immediately followed by S
         for _ in range(2):
             pos = rng.randrange(0, len(ops) + 1)
